@@ -117,12 +117,23 @@ func Read(p []byte) (int, error) {
 	return len(p), nil
 }
 
+// Perm and Shuffle are Fisher-Yates over Intn, like math/rand: every draw is a choice of the execution (or
+// of FreeIntn / the real generator outside a controlled execution). With the default answers (every draw 0)
+// the result is a fixed permutation that differs from the identity for n >= 2.
 func Perm(n int) []int {
 	m := make([]int, n)
 	for i := range m {
 		m[i] = i
 	}
+	Shuffle(n, func(i, j int) { m[i], m[j] = m[j], m[i] })
 	return m
 }
 
-func Shuffle(n int, swap func(i, j int)) {}
+func Shuffle(n int, swap func(i, j int)) {
+	if n < 0 {
+		panic("invalid argument to Shuffle")
+	}
+	for i := n - 1; i > 0; i-- {
+		swap(i, Intn(i+1))
+	}
+}
